@@ -267,7 +267,8 @@ class Interp:
                     return cls
                 if name == '__dict__':
                     return v.fields
-            return self.lib.obj_getattr(v, name)
+                return self.lib.obj_getattr(v, name)
+            raise PyRaise(builtin_exc('AttributeError'), "record has no attribute '%s'" % name)
         if isinstance(v, ClassV):
             f = v.lookup(name)
             if f is not None:
